@@ -1,22 +1,5 @@
-import BqVerif.Proofs.GatesBase
-namespace BqVerif.C18
-open BqVerif.Gates Matrix
-
-variable {R : Type} [CommRing R] [StarRing R]
-set_option linter.unusedSimpArgs false
-
-theorem C18_unitary_u3 (K : Consts R) (hK : K.Valid) (t p l : Ang R)
-    (ht : t.Valid) (hp : p.Valid) (hl : l.Valid) : IsUnitary 2 (u3 K t p l) := by
-  unfold IsUnitary
-  have h1 := hK.ii
-  have h2 := ht.circ
-  have h3 := hp.circ
-  have h4 := hl.circ
-  ext i j
-  fin_cases i <;> fin_cases j <;>
-    simp [toM, u3, Matrix.mul_apply, Fin.sum_univ_two, Ang.e, ht.rc, ht.rs, hp.rc, hp.rs,
-      hl.rc, hl.rs, hK.si] <;> grind
-
-end BqVerif.C18
-
-#print axioms BqVerif.C18.C18_unitary_u3
+import Mathlib.Analysis.SpecialFunctions.Sqrt
+import Mathlib.Data.Complex.Basic
+#check Real.sqrt
+#check Real.mul_self_sqrt
+example : (Complex.I) * Complex.I = -1 := Complex.I_mul_I
